@@ -447,6 +447,27 @@ theorem mirror_read_ideal (infl : List (List K)) (n : Nat) (ops : List (Op K)) :
     (read m).2 = matvec m.infl (acts m) ∧ spec (read m).1 = spec m :=
   ⟨read_snd _ (mirror_cache_invariant infl n ops), read_fst_spec _⟩
 
+/-- **The driver's lockstep is sound**: the specification state the driver steps alongside the
+cached mirror (`Spec.step` per operation, answered by `C14 mirror ideal` and compared with
+`dm.influence_functions.linear_combination(dm.actuators)` of the running code) is, after every
+history, the projection `spec` of the cached mirror's state — actuator heap, current handle and
+influence functions never depend on the cache or on surface arrays. -/
+theorem mirror_spec_lockstep (infl : List (List K)) (n : Nat) (ops : List (Op K)) :
+    spec (run (init infl n) ops).1 = (spec (init infl n)).after ops :=
+  run_spec_state _ ops (inv_init infl n)
+
+/-- **`opd` is twice `IF · actuators`** in every reachable state (the read-out the driver
+executes for `C14 mirror opd`), and as far as the mirror's state is concerned it is a read of
+`surface` — so every history with `opd` read-outs is covered by `mirror_surface_inv`. -/
+theorem mirror_opd_ideal (infl : List (List K)) (n : Nat) (ops : List (Op K)) :
+    let m := (run (init infl n) ops).1
+    (readOpd m).2 = (spec m).opd ∧ (readOpd m).1 = (read m).1 := by
+  intro m
+  refine ⟨?_, rfl⟩
+  show double (read m).2 = double (matvec (spec m).infl (spec m).acts)
+  rw [read_snd _ (mirror_cache_invariant infl n ops)]
+  rfl
+
 /-- **Returned surfaces are the caller's own**: in any reachable state, an in-place edit of any
 array that any earlier read returned changes neither the cached surface array nor what the next
 read returns. -/
